@@ -360,7 +360,7 @@ def fieldsOf (tbl : Table) (s : Nat) : List Field :=
 
 inductive Res where
   | ok (adv : Nat) (steps : Nat)     -- returned `(result, adv)`
-  | raised (steps : Nat)
+  | raised (steps : Nat) (guard : Bool)   -- guard = raised by the vector-length guard of the F16 repair
   | oof                               -- out of fuel
   deriving Repr, BEq
 
@@ -383,7 +383,7 @@ def vecLoop (rec : Bytes → Res) (data : Bytes) : Nat → Nat → Nat → Res
   | k+1, i, steps =>
     match rec (data.drop i) with
     | .oof => .oof
-    | .raised s => .raised (steps + 1 + s)
+    | .raised s g => .raised (steps + 1 + s) g
     | .ok j s => vecLoop rec data k (i + j) (steps + 1 + s)
 
 /-- `while j < byte_len:` re-parse loop over the content `c` of a bytes field, with loop fuel.
@@ -394,7 +394,7 @@ def reparseLoop (rec : Bytes → Res) (c : Bytes) (byteLen : Nat) : Nat → Nat 
     if j < byteLen then
       match rec (c.drop j) with
       | .oof => .oof
-      | .raised s => .raised (steps + 1 + s)
+      | .raised s g => .raised (steps + 1 + s) g
       | .ok jj s => if jj == 0 then .ok 0 (steps + 1 + s) else reparseLoop rec c byteLen lf (j + jj) (steps + 1 + s)
     else .ok 0 steps
 
@@ -414,24 +414,24 @@ def fieldStep (rec : Bytes → Option Nat → Res) (data : Bytes) (i : Nat) (ty 
     let c := sl data i1 (i1 + byteLen)
     match rec c none with
     | .oof => .oof
-    | .raised s => .raised s
+    | .raised s g => .raised s g
     | .ok j s =>
       if j < byteLen then
         match reparseLoop (fun b => rec b none) c byteLen (c.length + 1) j s with
         | .oof => .oof
-        | .raised s' => .raised s'
+        | .raised s' g => .raised s' g
         | .ok _ s' => fin s'
       else fin s
   | .vec elem =>
     let length := natOfLE (sl data i (i + 4))
     let i1 := i + 4
     -- repaired guard: `if length > len(data) - i: raise`  (Python ints: also raises when i > len(data))
-    if data.length < i1 + length then .raised 0 else
+    if data.length < i1 + length then .raised 0 true else
     vecLoop (fun b => rec b elem) data length i1 0
   | .sub s =>
     match rec (data.drop i) s with
     | .oof => .oof
-    | .raised st => .raised st
+    | .raised st g => .raised st g
     | .ok j st => .ok (i + j) st
 
 /-- `for field, type_ in args.items():`  (`flags` = value of the mode/flags field read so far) -/
@@ -443,12 +443,12 @@ def fieldsLoop (rec : Bytes → Option Nat → Res) (data : Bytes) : List Field 
       | none => some false
       | some idx => flags.map (fun v => !flagSet v idx)
     match skip with
-    | none => .raised (steps + 1)                 -- bin(None): TypeError
+    | none => .raised (steps + 1) false           -- bin(None): TypeError
     | some true => fieldsLoop rec data rest i flags (steps + 1)
     | some false =>
       match fieldStep rec data i fld.ty with
       | .oof => .oof
-      | .raised s => .raised (steps + 1 + s)
+      | .raised s g => .raised (steps + 1 + s) g
       | .ok i' s =>
         let flags' := match fld.ty with
           | .fixed k true => some (intOfLE (sl data i (i + k)))
